@@ -266,6 +266,10 @@ def initCheck : Option Nat â†’ List Group â†’ Bool
 def mkGroup (pref nsocks : Nat) : Group :=
   { pref := pref, status := .closed, socks := List.replicate nsocks {} }
 
+/-- a group as `rtr_mgr_add_group` creates it: CLOSED, sockets fresh from `rtr_init` called with `iv` -/
+def mkGroupIv (pref nsocks : Nat) (iv : Nat Ã— Nat Ã— Nat) : Group :=
+  { pref := pref, status := .closed, socks := List.replicate nsocks {}, ivs := iv }
+
 /-- `rtr_mgr_init` (as fixed): `none` = RTR_ERROR and no configuration -/
 def init (specs : List (Nat Ã— Nat)) : Option (List Group) :=
   if specs.isEmpty then none
@@ -316,7 +320,7 @@ def add (gs : List Group) (pref nsocks : Nat) (failAt : Nat := 0) : List Group Ã
   match addRefusal gs pref failAt with
   | some rc => (gs, [], rc)
   | none =>
-    let r := startFirstIfClosed (sortG (gs ++ [{ mkGroup pref nsocks with ivs := pickIvs defaultIvs gs }]))
+    let r := startFirstIfClosed (sortG (gs ++ [mkGroupIv pref nsocks (pickIvs defaultIvs gs)]))
     (r.1, r.2, 0)
 
 /-- what an End of Data PDU does to `sockets[0]` of group `p` when that socket is in
